@@ -12,12 +12,16 @@ TECHNIQUE = ("abstract interpretation with a units-of-measure (Laurent polynomia
 def scale_store_rules(prog, res: Result, cr: CaseRunner):
     """R01.3: the scale is fixed once, from the *normalised* definition."""
     from ..anchors import unit_creator, ref_unit_creator, UNIT_CREATION_ENTRY_POINTS
+    from ..anchors import unit_creator_args, ref_unit_creator_args
     mk = unit_creator(prog)
+    # the private creators are called the way their public callers call them (argument order / keywords read off
+    # QuantityMeta.new_unit and QuantityMeta.__new__)
+    MKARGS = [unit_creator_args(prog)]
 
     def setup_term(c: Ctx):
         c.new_type("T")
         d = TermV(RF.atom(("defmag",)), {"T": (1, 0)})
-        return [c.cls("T"), StrV(None, "symbol"), StrV(None, "name"), d], {}
+        return MKARGS[0](c.cls("T"), StrV(None, "symbol"), StrV(None, "name"), d)
 
     def judge_term(o):
         if o.kind == "raise":
@@ -46,7 +50,7 @@ def scale_store_rules(prog, res: Result, cr: CaseRunner):
         def setup(c: Ctx):
             c.new_type("T", **FLAVORS[fl])
             d = TermV(DEF, {"T": (1, 0)})
-            return [c.cls("T"), StrV(None, "symbol"), StrV(None, "name"), d], {}
+            return MKARGS[0](c.cls("T"), StrV(None, "symbol"), StrV(None, "name"), d)
         return setup
 
     def judge_term_ref(o):
@@ -75,7 +79,7 @@ def scale_store_rules(prog, res: Result, cr: CaseRunner):
 
     def setup_none(c: Ctx):
         c.new_type("T")
-        return [c.cls("T"), StrV(None, "symbol"), StrV(None, "name"), NONE], {}
+        return MKARGS[0](c.cls("T"), StrV(None, "symbol"), StrV(None, "name"), NONE)
 
     def judge_none(o):
         if o.kind == "raise":
@@ -88,6 +92,7 @@ def scale_store_rules(prog, res: Result, cr: CaseRunner):
     cr.run("R01.3", mk, "definition=None", setup_none, judge_none, flag_kinds=())
 
     mr = ref_unit_creator(prog)
+    MKARGS[0] = ref_unit_creator_args(prog)
 
     def judge_ref(o):
         if o.kind == "raise":
